@@ -106,6 +106,16 @@ CLAIMED = {
             'eval: 14 programs x copyall. mask: all 256 predicate subsets x dims given/omitted x coords flag.',
             'numpy is the reference for elementwise arithmetic; +-0 not distinguished; integer division by zero '
             'cells not compared', 'DESIGN.md section 4 C06'),
+    'C07': ('A', 'model_checking',
+            'bounded-exhaustive enumeration of (file kind, flavour, compression, writer, process history) saved by the real writer and re-read through libnetcdf',
+            'Four file kinds (every representable dtype incl. char and scalar; masked variables whose fill comes from '
+            'fill_value / missing_value / _FillValue with fills -999, -5, 1e20, 0 and a fully masked variable; every '
+            'attribute value type; dimension/variable order with a mid-position and a second unlimited dimension) x '
+            '4 netCDF flavours x complevel 0/1 x 3 writer entry points x with/without a compressed save earlier in the '
+            'process are saved and reopened; dimensions (names, order, lengths, unlimited), attributes (names, values, '
+            'type kind), variables (names, order, dtypes, dimension tuples, masks, bit-identical unmasked data) are compared.',
+            'libnetcdf/netCDF4 trusted for on-disk truth; 1-element array attributes == scalars; _FillValue reserved',
+            'DESIGN.md section 4 C07'),
 }
 
 PENDING_REASON = ('check not built yet in this session; planned per DESIGN.md section 4 '
